@@ -18,7 +18,9 @@ NS_CT = "http://schemas.openxmlformats.org/package/2006/content-types"
 DECL = '<?xml version="1.0" encoding="UTF-8" standalone="yes"?>'
 XLSX_ROWS, XLSX_COLS = 1048576, 16384
 XLS_ROWS, XLS_COLS = 65536, 256
-KNOWN = {1: "EscapedText", 2: "AbsoluteTarget", 3: "StrictType", 4: "InsertRowFalse", 5: "EmptyData"}
+# known_C17 is constantly None since the five first-round classes (EscapedText, AbsoluteTarget,
+# StrictType, InsertRowFalse, EmptyData) were repaired; the table stays for the plumbing
+KNOWN = {}
 
 
 def hx(s):
@@ -78,8 +80,12 @@ def el(p, name, attrs, body=()):
 
 # ------------------------------------------------------------------ xlsx generation
 SHEET_NAMES = ["S1", "Sheet 2", "Dätä", "a&b", "x<y", "表", "Q", "long sheet name 31 characters!!", "s'q", "T"]
-COL_NAMES = ["a", "b", "Name", "Größe", "col 3", "x.y", "列", "h1", "Total", "n/a", "1", "A1"]
-SPECIAL_COLS = ["P&L", "Q1 <2020>", 'say "hi"', "a>b", "&amp;"]
+COL_NAMES = ["a", "b", "Name", "Größe", "col 3", "x.y", "列", "h1", "Total", "n/a", "1", "A1", "a;b", "#1", "😀x"]
+SPECIAL_COLS = ["P&L", "Q1 <2020>", 'say "hi"', "a>b", "&amp;", "it's", "&<>\"'", "line1\nline2", "tab\there",
+                "&#38;", "a&b;c", "<", "&", "x\ry", "&lt;tag&gt;"]
+SPECIAL_TABLE_NAMES = ["P&L%d", "A<B%d", 'q"%d', "it's%d", "x>y%d", "&%d;", "T\n%d"]
+BAD_SPELLINGS = ["&bogus;", "&amp", "a&b", "&#xZZ;", "&#0;", "&#xD800;", "&#1114112;", "&#;", "&#x;", "&;", "&#-1;",
+                 "&#+65;", "&#X41;", "&AMP;", "&#4294967296;", "&#x110000;", "& amp;", "&&amp;", "&amp;&", "&#65"]
 EDGE_COLS = [0, 1, 25, 26, 27, 51, 52, 701, 702, 703, 16382, 16383]
 EDGE_ROWS = [0, 1, 8, 9, 10, 98, 99, 100, 65535, 65536, 999998, 999999, 1000000, 1048574, 1048575]
 
@@ -164,6 +170,53 @@ def sheet_pre_post(rng, p, cells, has_tables, ntables):
     return pre, post
 
 
+def spell(rng, text, profile="structured"):
+    """the wire token of one way of writing `text` inside an attribute value (see cmd_merge.ml
+    parse_spelling): plain (escaped the usual way by Merge.esc_sp) or piece by piece — literal
+    runs, the five predefined entities, decimal / hexadecimal character references with leading
+    zeros; every XML-special character is drawn in each of its legal forms"""
+    if profile == "malformed" and rng.random() < 0.12:
+        bad = rng.choice(BAD_SPELLINGS)
+        cut = rng.randrange(len(text) + 1)
+        return "pL" + hx(text[:cut].replace("&", "").replace("<", "").replace('"', "") + bad)
+    if rng.random() < 0.35:
+        return xs(text)
+    pieces, lit = [], ""
+
+    def flush():
+        nonlocal lit
+        if lit:
+            pieces.append("L" + hx(lit))
+            lit = ""
+
+    def charref(cp):
+        k = rng.random()
+        if k < 0.5:
+            digits = len(str(cp))
+            return "D%d.%d" % (cp, digits + rng.choice([0, 0, 0, 1, 3]))
+        digits = len("%x" % cp)
+        return "%s%d.%d" % ("H" if k < 0.75 else "U", cp, digits + rng.choice([0, 0, 0, 1, 4]))
+
+    for ch in text:
+        cp = ord(ch)
+        k = rng.random()
+        if ch in '&<"':
+            form = "N" if k < 0.6 else "C"
+        elif ch in "\t\n\r":
+            form = "C"
+        elif ch in ">'":
+            form = "L" if k < 0.4 else ("N" if k < 0.75 else "C")
+        else:
+            form = "L" if k < 0.88 else "C"
+        if form == "L":
+            lit += ch
+        else:
+            flush()
+            pieces.append("N%d" % cp if form == "N" else charref(cp))
+    flush()
+    return "p" + "+".join(pieces)
+
+
 def gen_region(rng, cluster, profile):
     box = draw_box(rng, XLSX_ROWS, XLSX_COLS, cluster, 5, 5)
     single = box[0] == box[2] and box[1] == box[3]
@@ -185,35 +238,40 @@ def gen_region(rng, cluster, profile):
 def gen_table(rng, idx, cluster, profile, used_names):
     header = 1 if rng.random() < 0.7 else 0
     totals = 1 if rng.random() < 0.3 else 0
+    ins = 1 if rng.random() < 0.06 else 0          # the insert row of an empty table is showing
     data_rows = rng.choice([1, 1, 2, 3, 4])
-    if rng.random() < (0.015 if profile != "malformed" else 0.15):
-        data_rows = 0
+    if ins or rng.random() < 0.12:
+        data_rows = 0                              # header-only / totals-only / empty table
     width = rng.choice([1, 2, 2, 3, 4, 6])
-    height = header + totals + data_rows
+    height = header + totals + ins + data_rows
     if height == 0:
         height, data_rows = 1, 1
     box = draw_box(rng, XLSX_ROWS, XLSX_COLS, cluster, 1, 1)
     if cluster and rng.random() < 0.5:
         box = (max(0, cluster[0] + rng.randrange(-2, 4)), max(0, cluster[1] + rng.randrange(-2, 3)), 0, 0)
+    if rng.random() < 0.2:
+        box = (0, box[1], 0, 0)                    # the table starts in row 1
     r0, c0 = min(box[0], XLSX_ROWS - height), min(box[1], XLSX_COLS - width)
     ref = (r0, c0, r0 + height - 1, c0 + width - 1)
     name = "T%d" % idx
     if rng.random() < 0.1:
-        name = rng.choice(["Tab_é%d", "Table.%d", "_t%d"]) % idx
-    if rng.random() < 0.01:
-        name = "P&L%d" % idx
+        name = rng.choice(["Tab_é%d", "Table.%d", "_t%d", "表%d"]) % idx
+    if rng.random() < 0.06:
+        name = rng.choice(SPECIAL_TABLE_NAMES) % idx
     if profile == "malformed" and used_names and rng.random() < 0.1:
         name = rng.choice(used_names)              # duplicate table name: the first one wins
-    pool = COL_NAMES + (SPECIAL_COLS if rng.random() < 0.03 else [])
+    pool = COL_NAMES + (SPECIAL_COLS * 3 if rng.random() < 0.2 else [])
     cols = [rng.choice(pool) + (str(j) if rng.random() < 0.5 else "") for j in range(width)]
     if rng.random() < 0.1:
         cols = cols[:rng.randrange(0, len(cols) + 1)]      # column count differs from the width
     single = ref[0] == ref[2] and ref[1] == ref[3]
-    t = {"name": name, "ref": ref, "header": header, "totals": totals, "cols": cols,
+    t = {"name": name, "ref": ref, "header": header, "totals": totals, "ins": ins, "cols": cols,
+         "name_sp": spell(rng, name, profile), "cols_sp": [spell(rng, c, profile) for c in cols],
          "part": "table%d.xml" % idx, "rid": "rId%d" % idx,
-         "target": "D", "type": "T", "tfirst": rng.random() < 0.3,
+         "target": rng.choice("DDA"), "type": rng.choice("TTS"), "tfirst": rng.random() < 0.3,
          "refstyle": "S" if single and rng.random() < 0.5 else "P", "reflower": rng.random() < 0.1,
-         "hexp": rng.random() < 0.3, "texp": rng.random() < 0.3, "insert": "-",
+         "hexp": rng.random() < 0.3, "texp": rng.random() < 0.3,
+         "insert": rng.choice("1t") if ins else rng.choice("---0f"),
          "extra": [("xmlns", NS_MAIN), ("id", str(idx))] if rng.random() < 0.9 else [],
          "cextra": rng.choice([[], [], [("dataDxfId", "1")], [("totalsRowLabel", "Total"), ("uniqueName", "u")]]),
          "prefix": "x" if rng.random() < 0.1 else None,
@@ -221,24 +279,20 @@ def gen_table(rng, idx, cluster, profile, used_names):
     if t["prefix"]:
         t["extra"] = [("xmlns:x", NS_MAIN), ("id", str(idx))]
     k = rng.random()
-    if k < 0.015:
-        t["target"] = "A"
-    elif k < 0.03 or (profile == "malformed" and k < 0.3):
-        t["target"] = "R" + xs(rng.choice(["tables/%s" % t["part"], "xl/tables/%s" % t["part"], "",
+    if k < 0.02 or (profile == "malformed" and k < 0.3):
+        t["target"] = "R" + xs(rng.choice(["tables/%s" % t["part"], "xl/tables/%s" % t["part"], "", "/",
                                            "../../xl/tables/%s" % t["part"], "../Tables/%s" % t["part"].upper(),
-                                           "../tables/missing.xml", "..//tables/%s" % t["part"]]))
+                                           "../tables/missing.xml", "..//tables/%s" % t["part"],
+                                           "//xl/tables/%s" % t["part"], "/xl/tables/missing.xml",
+                                           "/XL/TABLES/%s" % t["part"].upper()]))
     k = rng.random()
-    if k < 0.01:
-        t["type"] = "S"
-    elif k < 0.02:
-        t["type"] = "R" + xs(rng.choice([NS_REL + "/drawing", NS_REL + "/table ", (NS_REL + "/table").upper(), ""]))
+    if k < 0.01 or (profile == "malformed" and k < 0.1):
+        t["type"] = "R" + xs(rng.choice([NS_REL + "/drawing", NS_REL + "/table ", (NS_REL + "/table").upper(), "",
+                                         "http://purl.oclc.org/ooxml/officeDocument/relationships/drawing",
+                                         "http://purl.oclc.org/ooxml/officeDocument/relationships/table/"]))
     k = rng.random()
-    if k < 0.1:
-        t["insert"] = "0"
-    elif k < 0.115:
-        t["insert"] = "f"
-    elif k < 0.125 or (profile == "malformed" and k < 0.3):
-        t["insert"] = "R" + xs(rng.choice(["1", "true", "00", " 0", ""]))
+    if k < 0.01 or (profile == "malformed" and k < 0.3):
+        t["insert"] = "R" + xs(rng.choice(["TRUE", "True", "00", " 0", "", " 1", "yes", "01", "false ", "2"]))
     if profile == "malformed":
         k = rng.random()
         if k < 0.15:
@@ -247,6 +301,8 @@ def gen_table(rng, idx, cluster, profile, used_names):
             t["totals"] = rng.choice([2, 5, 4294967295, 4294967296])
         elif k < 0.45:
             t["refstyle"] = "R" + xs(rng.choice(["$A$1:$B$2", "B2:A1", "", "A1:B2:C3", "A0:B1", "A1:XFE2"]))
+        elif k < 0.5:
+            t["ins"] = 1 - t["ins"]                # the insertRow spelling contradicts the declared geometry
     return t
 
 
@@ -256,7 +312,7 @@ def table_position(t, cells):
         return "sheet-without-cells"
     r0 = min(r for r, _ in cells); r1 = max(r for r, _ in cells)
     c0 = min(c for _, c in cells); c1 = max(c for _, c in cells)
-    a, b, c, d = t["ref"][0] + t["header"], t["ref"][1], t["ref"][2] - t["totals"], t["ref"][3]
+    a, b, c, d = t["ref"][0] + t["header"], t["ref"][1], t["ref"][2] - t["totals"] - t.get("ins", 0), t["ref"][3]
     if a > c:
         return "no-data-rows"
     if c < r0 or a > r1 or d < c0 or b > c1:
@@ -307,12 +363,13 @@ def gen_xlsx(rng, profile="structured"):
                      attrs_wire(g["before"]), attrs_wire(g["after"]), events_wire(g["pad"])]
         for t in tabs:
             b = t["ref"]
-            toks += ["TB", xs(t["name"]), str(b[0]), str(b[1]), str(b[2]), str(b[3]), str(t["header"]), str(t["totals"]),
+            toks += ["TB", t["name_sp"], str(b[0]), str(b[1]), str(b[2]), str(b[3]), str(t["header"]), str(t["totals"]),
+                     str(t["ins"]),
                      xs(t["part"]), xs(t["rid"]), t["target"], t["type"], "1" if t["tfirst"] else "0",
                      t["refstyle"], "1" if t["reflower"] else "0", "1" if t["hexp"] else "0",
                      "1" if t["texp"] else "0", t["insert"], attrs_wire(t["extra"]), attrs_wire(t["cextra"]),
                      xs(t["prefix"]) if t["prefix"] else "-", events_wire(t["pre"]),
-                     ",".join(xs(c) for c in t["cols"]) if t["cols"] else "-"]
+                     ",".join(t["cols_sp"]) if t["cols_sp"] else "-"]
             tnames.append(t["name"])
         for (r, c) in sorted(cells):
             toks += ["CL", str(r), str(c), str(cells[(r, c)])]
@@ -320,7 +377,13 @@ def gen_xlsx(rng, profile="structured"):
         info["tables"] += ntab
         for t in tabs:
             info.setdefault("tpos", []).append(table_position(t, cells))
-            info.setdefault("thdr", []).append("h%dt%d" % (min(t["header"], 2), min(t["totals"], 2)))
+            info.setdefault("thdr", []).append("h%dt%di%d" % (min(t["header"], 2), min(t["totals"], 2), t["ins"]))
+            info.setdefault("tforms", []).append("target-%s type-%s insert-%s%s%s" % (
+                t["target"][0], t["type"][0], t["insert"][0],
+                " row1" if t["ref"][0] == 0 else "", " spelled" if t["name_sp"][0] == "p" else ""))
+            for sp in [t["name_sp"]] + t["cols_sp"]:
+                for pc in (sp[1:].split("+") if sp[0] == "p" and len(sp) > 1 else []):
+                    info.setdefault("pieces", []).append(pc[0])
         info.setdefault("kinds", []).append("cells" if cells else "empty-sheet")
     calls = []
     for i, name in enumerate(names):
